@@ -60,6 +60,19 @@ impl<K: NumericId> NotificationList<K> {
         self.inner.notified.lock().unwrap().push(item);
     }
 
+    /// A new, independent list that starts out with the items currently notified on this one.
+    ///
+    /// `Clone` is shallow (clones share their state, which is how a list is handed to several
+    /// threads); this is the deep variant for an owner that is itself being duplicated.
+    pub fn detached_copy(&self) -> Self {
+        let pending = self.inner.notified.lock().unwrap().clone();
+        let copy = Self::default();
+        for item in pending {
+            copy.notify(item);
+        }
+        copy
+    }
+
     /// Clears all notification state and returns a list of notified items since the last `reset`.
     ///
     /// NB: this method will have unpredictable behavior when it comes to concurrent calls to
